@@ -2,7 +2,7 @@
 # tools/mutant_matrix.sh [tier]   - run, for every seeded change (all rounds), the check of the property it
 # targets (on a scratch copy of /repo with the change applied); results in seeded/RESULTS_<tier>.txt
 TIER=${1:-quick}
-OUT=/verif/seeded/RESULTS_$TIER.txt
+OUT=${MATRIX_OUT:-/verif/seeded/RESULTS_$TIER.txt}
 : > $OUT.tmp
 ls -d /verif/seeded/C??*-? | xargs -P 4 -I{} sh -c 'id=$(basename {} | cut -c1-3); /verif/tools/try_patch.sh {}/patch.diff '$TIER' $id 2>&1 | grep "^RESULT" | cut -c1-260 >> '$OUT.tmp
 sort $OUT.tmp > $OUT; rm -f $OUT.tmp
